@@ -143,8 +143,12 @@ def continue_coop(p, full, r, res, prefix_desc):
                             first = parse_open_wire(b)
                 if first is not None and first['caps'] != po['caps']:
                     a, b2 = set(map(tuple, first['caps'])), set(map(tuple, po['caps']))
-                    return ('KF-capability-leak' if b2 < a else 'open-parameters',
-                            'an earlier session changed the capabilities the next session is offered: %r then %r' % (first['caps'], po['caps']))
+                    kind = 'KF-capability-leak' if b2 < a else 'open-parameters'
+                    what = 'an earlier session changed the capabilities the next session is offered: %r then %r' % (first['caps'], po['caps'])
+                    if kind != 'KF-capability-leak':
+                        return (kind, what)
+                    # recorded finding: report it, and keep watching whether the session stays up
+                    res.fail('C02', what, {'cfg': p.conf, 'events': list(p.trace)}, key=kind)
         elif est_at is not None and o['state'] != 'ESTABLISHED':
             return ('does-not-stay-up', 'the recovered session left Established (%s) under a cooperative peer at +%d ticks'
                     % (o['state'], w.now - est_at))
